@@ -5,6 +5,7 @@ from .. import env  # noqa: F401
 from ..core import Phase, Result
 from .. import refsolver, scripted, snapshot, spans
 from .. import solvecheck as SC
+from ..represent import Rep, tapes, with_rep
 from ..util import attempt
 
 import fsic
@@ -68,7 +69,9 @@ def check_case(case):
         kw['start'] = start
     if case.get('end') is not None:
         kw['end'] = end
-    got = attempt(A.solve, **kw, **opts)
+    rep = Rep(case.get('rep'))
+    got = attempt(A.solve, **kw, **rep.opts(opts))      # the loop of solve_t below receives the plain values
+    rep.tag(res)
     detail = f'span={desc} start={start!r} end={end!r} lags={L} leads={K} {SC.opts_text(opts)} script={case.get("script")}'
 
     if opts.get('min_iter', 0) > opts.get('max_iter', 100):
@@ -278,13 +281,13 @@ def strategy():
         return {'span': desc, 'start': draw(lab), 'end': draw(lab), 'lags': lags, 'leads': leads, 'nvars': 1,
                 'presolved': draw(st.booleans()),
                 'script': script_for(n, draw(st.lists(st.integers(0, 2), min_size=1, max_size=3)), fault),
-                'opts': opts}
+                'opts': opts, 'rep': draw(tapes())}
     return cases()
 
 
 def phases(tier):
     quick = tier == 'quick'
     return [
-        Phase('start-end-pairs', check_case, gen=gen_pairs(4 if quick else 6), exhaustive=True),
+        Phase('start-end-pairs', check_case, gen=with_rep(gen_pairs(4 if quick else 6)), exhaustive=True),
         Phase('options-and-faults', check_case, strategy=strategy, examples=6000 if quick else 200000),
     ]
